@@ -123,6 +123,33 @@ class Sim:
             h.finish()
         return raised
 
+    def _handler(self, tid, src, dgram):
+        if tid == 0:
+            cls, server, sock = self.H, self.main, FakeSock(self.log, 0)
+        else:
+            s = self.subs[tid]
+            cls, server, sock = self.T.TFTPSubHandler, s, s.socket
+        h = cls.__new__(cls)
+        h.request = (dgram, sock)
+        h.client_address = self.addr_fn(src)
+        h.server = server
+        return h
+
+    def overlapped(self, a, b, order, now):
+        """two datagrams (tid, src, bytes) whose handler objects are alive at the same time, as when the listening thread and a
+        transfer thread (or two transfer threads) each handle a packet: `order` interleaves the phases, lower case for a,
+        upper case for b: s/S setup, h/H handle, f/F finish.  Returns the datagrams sent, in order."""
+        self.now = now
+        self.log.clear()
+        ha, hb = self._handler(*a), self._handler(*b)
+        for ch in order:
+            h = ha if ch.islower() else hb
+            try:
+                {'s': h.setup, 'h': h.handle, 'f': h.finish}[ch.lower()]()
+            except Exception:
+                pass
+        return list(self.log)
+
     def packet(self, tid, src, dgram, now):
         self.now = now
         self.log.clear()
